@@ -280,6 +280,29 @@ func (h *VHist) EnsureDatasets(names ...string) error {
 	return nil
 }
 
+// ApplyRefused applies a write the store has to refuse as a whole (badbatch: a null reference value in an extra last
+// entity; badtxn: the same in the part for dataset B). Returns an error if it was accepted.
+func (h *VHist) ApplyRefused(op VOp) error {
+	var err error
+	if op.K == "badbatch" {
+		err = h.vApplyImpl(op)
+	} else {
+		t := &Transaction{DatasetEntities: map[string][]*Entity{}}
+		for n, l := range op.Parts {
+			es, _ := h.ents(l)
+			t.DatasetEntities[h.DsName(n)] = es
+		}
+		bad := NewEntity(h.Curie("e9"), 0)
+		bad.References[h.Key("p")] = nil
+		t.DatasetEntities[h.DsName("B")] = append(t.DatasetEntities[h.DsName("B")], bad)
+		err = h.storeVia(op.Via).ExecuteTransaction(t)
+	}
+	if err == nil {
+		return fmt.Errorf("harness: a write with a null reference value was accepted")
+	}
+	return nil
+}
+
 // ApplyWrite applies a batch/txn op to implementation and model. Returns the
 // implementation error (accepted == nil).
 func (h *VHist) ApplyWrite(op VOp) error {
